@@ -52,60 +52,339 @@ def find_evaluator(prog, tool):
     raise AnalysisError('verdict printer not found')
 
 
-def check_polarity(ctx, ev):
+def verdict_text(t, call):
+    """'passed' / 'failed' / None for a print(...) call event, however the
+    text is assembled."""
+    from ..strshape import segments, merge, Lit, Unknown
+    if not (isinstance(call, ast.Call) and U(call.func) == 'print'
+            and call.args):
+        return None
+    try:
+        segs = merge(segments(t.expand(call.args[0])))
+    except Unknown:
+        return None
+    if segs and isinstance(segs[0], Lit):
+        if segs[0].text.startswith('passed'):
+            return 'passed'
+        if segs[0].text.startswith('failed'):
+            return 'failed'
+    return None
+
+
+def tool_table(ctx, tool):
+    cache = ctx.__dict__.setdefault('_cache', {})
+    if 'c19_tool' in cache:
+        return cache['c19_tool']
+    from ..dte import inline_helpers
     prog = ctx.prog
-    t = Table(prog, ev)
-    W = ctx.where(ev.module, ev.node)
+    t = Table(prog, tool, inline=inline_helpers(
+        prog, modules={SHELL}, classes=False,
+        exclude={SHELL + '.flatten', SHELL + '.main'}), comps=False,
+        max_depth=4, max_paths=200000)
+    cache['c19_tool'] = t
+    return t
+
+
+def rules_symbol(prog, t):
+    """Symbols holding the loaded rule set (result of Rules.load & co)."""
+    out = set()
+    for sym, d in t.en.defs.items():
+        if isinstance(d, ast.Call) and prog.resolve(
+                t.finfo.module, d.func) in (
+                    POLICY + '.Rules.load', POLICY + '.Rules.from_dict',
+                    POLICY + '.Rules'):
+            out.add(sym)
+    return out
+
+
+def rule_origin(prog, t, p, func, rsyms):
+    """(name expr text, how) when `func` (the callee of an evaluation) is a
+    rule taken from the loaded rule set."""
+    e = func
+    for _ in range(4):
+        if isinstance(e, ast.Name) and isinstance(t.en.defs.get(e.id),
+                                                  ast.AST):
+            e = t.en.defs[e.id]
+        else:
+            break
+    if isinstance(e, ast.Subscript):
+        base = e.value
+        if isinstance(base, ast.Name) and base.id in rsyms:
+            return U(e.slice), 'lookup'
+        if isinstance(base, ast.Name) and base.id.startswith('SYM_e') and \
+                is_const(e.slice, 1):
+            d = t.en.defs.get(base.id)
+            it = t.expand(d[1]) if isinstance(d, tuple) else None
+            if it is not None and any(
+                    isinstance(n, ast.Call) and method_call(n, 'items')
+                    and U(method_call(n)[0]) in rsyms
+                    for n in ast.walk(t.en.expand(d[1], 1))) or (
+                        it is not None and '.items()' in U(it)):
+                return '%s[0]' % base.id, 'items'
+    return None, None
+
+
+def check_tool_paths(ctx, tool):
+    """Verdict polarity, argument roles, iteration and target derivation,
+    read off the paths of the tool with its helpers inlined."""
+    prog = ctx.prog
+    t = tool_table(ctx, tool)
+    en = t.en
+    W = ctx.where(tool.module, tool.node)
     F = W.split(':')[0]
-    n = 0
-    eval_call = None
+    rsyms = rules_symbol(prog, t)
+    if not rsyms:
+        raise AnalysisError('the checker does not load a rule set')
+    req = tool.params[2] if len(tool.params) > 2 else 'apply_rule'
+    tf_param = 'target_file' if 'target_file' in tool.params else None
+    flat = prog.functions.get(SHELL + '.flatten')
+    if tf_param is None or flat is None:
+        raise AnalysisError('target_file parameter / flatten helper '
+                            'vanished')
+    seen = set()
+
+    def ob(rule, ok, line, construct, detail):
+        k = (rule, ok, construct, detail)
+        if k in seen:
+            return
+        seen.add(k)
+        ctx.ob(rule, ok, '%s:%d' % (F, line), tool.qual, construct, detail)
+
+    n_eval = n_pol = n_req = n_file = n_default = n_sorted = 0
+    bad_iter = bad_target = None
+    colon_ok = sorted_ok = None
     for p in t.paths:
-        if any(c.kind == 'exc' for c in p.conds):
-            continue
-        verdicts = [(verdict_of(e.node), e) for e in p.events
-                    if e.kind == 'call' and verdict_of(e.node)]
-        # the evaluation result tested on this path
-        res = None
-        for c in p.conds:
-            if c.kind == 'test' and isinstance(c.expr, ast.Name) and \
-                    c.expr.id in t.en.defs and isinstance(
-                        t.en.defs[c.expr.id], ast.Call):
-                d = t.en.defs[c.expr.id]
-                if U(d.func) in ev.params:
-                    res = (c, d)
-                    eval_call = d
-        if res is None:
-            if verdicts:
-                ctx.ob('C19.POLARITY', False, '%s:%d' % (F,
-                                                         verdicts[0][1].line),
-                       ev.qual, 'verdict without evaluation',
-                       'a verdict is printed on a path that does not test '
-                       'the result of evaluating the rule')
-            continue
-        n += 1
-        want = 'passed' if res[0].pol else 'failed'
-        got = [v for v, _e in verdicts]
-        ok = got == [want]
-        ctx.ob('C19.POLARITY', ok, '%s:%d' % (
-            F, verdicts[0][1].line if verdicts else ev.node.lineno),
-            ev.qual, 'result %s -> prints %s' % (
-                'truthy' if res[0].pol else 'falsy', got),
-            'exactly one verdict, `%s`' % want if ok else
-            'for a %s evaluation result the checker prints %s instead of '
-            'exactly one `%s`' % ('truthy' if res[0].pol else 'falsy', got,
-                                  want))
+        rq = [c for c in p.conds if c.kind == 'test' and U(c.expr) == req]
+        requested = rq[0].pol if rq else None
+        evals = []
+        attempts = 0
+        for i, e in enumerate(p.events):
+            if e.kind not in ('call', 'maycall'):
+                continue
+            name, how = rule_origin(prog, t, p, e.node.func, rsyms)
+            if name is not None:
+                attempts += 1
+                if e.kind == 'call':
+                    evals.append((i, e, name, how))
+        failed_prints = [e for e in p.events if e.kind == 'call'
+                         and verdict_text(t, e.node) == 'failed']
+        def mentions_rules(x, depth=3):
+            for n in ast.walk(x):
+                if isinstance(n, ast.Name):
+                    if n.id in rsyms:
+                        return True
+                    d = en.defs.get(n.id)
+                    if depth and isinstance(d, ast.AST) and mentions_rules(
+                            d, depth - 1):
+                        return True
+            return False
+        looped = [c for c in p.conds if c.kind == 'loop'
+                  and mentions_rules(c.expr)]
+        exc = any(c.kind == 'exc' for c in p.conds)
+        # ---- iteration rules
+        if requested is True and p.outcome.kind != 'raise':
+            n_req += 1
+            if not ((attempts == 1 or (not attempts and failed_prints))
+                    and not any(c.pol for c in looped)):
+                bad_iter = bad_iter or (p, 'a requested rule does not '
+                                        'produce exactly one verdict')
+            for i, e, name, how in evals:
+                if name != req and U(en.expand(ast.parse(
+                        name, mode='eval').body)) != req:
+                    bad_iter = bad_iter or (
+                        p, 'the verdict is reported under a name other than '
+                        'the requested rule')
+        if requested is False and p.outcome.kind != 'raise':
+            if not looped:
+                bad_iter = bad_iter or (p, 'without a requested rule the '
+                                        'rule set is not iterated')
+            for c in looped:
+                it = en.expand(c.expr)
+                srt = [n for n in ast.walk(it) if isinstance(n, ast.Call)
+                       and U(n.func) == 'sorted']
+                good = bool(srt) and not any(
+                    k.arg in ('reverse', 'key') for n in srt
+                    for k in n.keywords)
+                if not good:
+                    for ev in p.events:
+                        if ev.kind == 'call' and method_call(
+                                ev.node, 'sort') and not ev.node.args and \
+                                not ev.node.keywords and U(method_call(
+                                    ev.node)[0]) in U(c.expr):
+                            good = True
+                sorted_ok = good if sorted_ok is None else (sorted_ok
+                                                            and good)
+                n_sorted += 1
+            for i, e, name, how in evals:
+                # only names containing a colon are evaluated
+                pre = p.conds[:e.nconds]
+                flt = any(cd.kind == 'test' and cd.pol and isinstance(
+                    cd.expr, ast.Compare) and isinstance(
+                        cd.expr.ops[0], ast.In) and is_const(
+                            cd.expr.left, ':') for cd in pre)
+                if not flt:
+                    for c in looped:
+                        for n in ast.walk(en.expand(c.expr)):
+                            if isinstance(n, ast.comprehension) and any(
+                                    isinstance(x, ast.Compare) and isinstance(
+                                        x.ops[0], ast.In) and is_const(
+                                            x.left, ':') for x in n.ifs):
+                                flt = True
+                colon_ok = flt if colon_ok is None else (colon_ok and flt)
+        # ---- each evaluation: roles, polarity, target
+        for i, e, name, how in evals:
+            n_eval += 1
+            c = e.node
+            role = dict(zip(['target', 'creds', 'enforcer', 'current_rule'],
+                            c.args))
+            for k in c.keywords:
+                if k.arg:
+                    role[k.arg] = k.value
+            probs = []
+            if set(role) != {'target', 'creds', 'enforcer', 'current_rule'}:
+                probs.append('the rule is not evaluated with the four '
+                             'protocol arguments')
+            cr = role.get('creds')
+            crx = en.expand(cr) if cr is not None else None
+            if crx is None or "['token']" not in U(crx):
+                probs.append('credentials are not the token data (%s)'
+                             % (U(cr) if cr is not None else None))
+            tg = role.get('target')
+            if tg is None or (cr is not None and U(tg) == U(cr)):
+                probs.append('target is %s' % (U(tg) if tg is not None
+                                               else 'missing'))
+            enf = role.get('enforcer')
+            enx = en.expand(enf) if enf is not None else None
+            if not (isinstance(enx, ast.Call) and prog.resolve(
+                    tool.module, enx.func) == SHELL + '.FakeEnforcer'):
+                probs.append('enforcer stand-in is %s' % (
+                    U(enf) if enf is not None else None))
+            nm = role.get('current_rule')
+            if nm is None or U(nm) != name:
+                probs.append('the evaluated rule is not the one named by '
+                             'the reported policy name')
+            ob('C19.CALL', not probs, e.line, U(c)[:90],
+               'evaluates the named rule with the target, the token '
+               'credentials and the enforcer stand-in' if not probs else
+               '; '.join(probs))
+            # polarity of the verdict printed for this evaluation
+            if not exc and e.sym:
+                tested = [cd for cd in p.conds if cd.kind == 'test'
+                          and isinstance(cd.expr, ast.Name)
+                          and cd.expr.id == e.sym]
+                verdicts = [(verdict_text(t, x.node), x)
+                            for x in p.events[i + 1:] if x.kind == 'call'
+                            and verdict_text(t, x.node)]
+                if not tested:
+                    if verdicts:
+                        ob('C19.POLARITY', False, verdicts[0][1].line,
+                           'verdict without evaluation',
+                           'a verdict is printed on a path that does not '
+                           'test the result of evaluating the rule')
+                else:
+                    n_pol += 1
+                    want = 'passed' if tested[0].pol else 'failed'
+                    got = [v for v, _x in verdicts]
+                    ok = got == [want]
+                    ob('C19.POLARITY', ok, verdicts[0][1].line if verdicts
+                       else e.line, 'result %s -> prints %s' % (
+                           'truthy' if tested[0].pol else 'falsy', got),
+                       'exactly one verdict, `%s`' % want if ok else
+                       'for a %s evaluation result the checker prints %s '
+                       'instead of exactly one `%s`' % (
+                           'truthy' if tested[0].pol else 'falsy', got,
+                           want))
+                    # the verdict carries the evaluated name
+                    for v, x in verdicts:
+                        if nm is not None and U(nm) not in U(en.expand(
+                                x.node.args[0], 1)) and U(nm) not in U(
+                                    x.node.args[0]):
+                            ob('C19.CALL', False, x.line, U(x.node)[:80],
+                               'the verdict is not printed under the name '
+                               'of the evaluated policy')
+            # target derivation
+            given = [cd for cd in p.conds if cd.kind == 'test'
+                     and U(cd.expr) == tf_param]
+            if not given:
+                bad_target = bad_target or (
+                    p, 'the target does not depend on whether a target file '
+                    'was given')
+                continue
+            tgx = en.expand(tg) if tg is not None else None
+            if given[0].pol:
+                n_file += 1
+                ok = isinstance(tgx, ast.Call) and prog.resolve(
+                    tool.module, tgx.func) == flat.qual and len(
+                        tgx.args) == 1 and isinstance(
+                            tgx.args[0], ast.Call) and (prog.resolve(
+                                tool.module, tgx.args[0].func) or ''
+                            ).endswith(('jsonutils.loads', 'json.loads'))
+                if not ok:
+                    bad_target = bad_target or (
+                        p, 'with a target file the rules are not evaluated '
+                        'against exactly the flattened contents of that '
+                        'file (got %s)' % (U(tgx)[:80] if tgx is not None
+                                           else None))
+            else:
+                n_default += 1
+                ok = isinstance(tgx, ast.Dict) and any(
+                    is_const(k, 'user_id') for k in tgx.keys)
+                if not ok:
+                    bad_target = bad_target or (
+                        p, 'without a target file the default target is '
+                        'not the token\'s own user / project (got %s)' % (
+                            U(tgx)[:80] if tgx is not None else None))
     ctx.count(len(t.paths))
-    if eval_call is None:
-        for d in t.en.defs.values():
-            if isinstance(d, ast.Call) and U(d.func) in ev.params:
-                eval_call = d
-    if n == 0:
-        ctx.ob('C19.POLARITY', False, W, ev.qual,
+    if n_pol == 0:
+        ctx.ob('C19.POLARITY', False, W, tool.qual,
                'verdict independent of the result',
                'no path tests the result of evaluating the rule before '
                'printing a verdict')
-    ctx.floor('C19.POLARITY', n, 2, 'verdict paths')
-    return eval_call
+    if not ctx.findings:
+        ctx.floor('C19.POLARITY', n_pol, 2, 'verdict paths')
+        ctx.floor('C19.CALL', n_eval, 2, 'evaluations')
+    ctx.ob('C19.ITER', bool(sorted_ok), W, tool.qual, 'iteration order',
+           'policies are reported in sorted name order' if sorted_ok else
+           'without a requested rule the policies are not reported in '
+           'sorted order')
+    ctx.ob('C19.ITER', bool(colon_ok), W, tool.qual, 'name filter',
+           'only names containing a colon are reported' if colon_ok else
+           'the checker does not restrict its report to policy names '
+           'containing a colon')
+    ctx.ob('C19.ITER', bad_iter is None and n_req > 0, W, tool.qual,
+           'requested rule (%d paths)' % n_req,
+           'only the requested rule is evaluated, once' if bad_iter is None
+           and n_req else (bad_iter[1] if bad_iter else 'no path handles a '
+                           'requested rule'))
+    ctx.ob('C19.TARGET', bad_target is None and n_file > 0
+           and n_default > 0, W, tool.qual,
+           'target derivation (%d file paths, %d default paths)'
+           % (n_file, n_default),
+           'the target is the flattened target file when one is given, '
+           'else the token\'s own user/project' if bad_target is None else
+           bad_target[1] + ' (path: %s)' % bad_target[0].cond_text()[-200:])
+    # flatten keeps every leaf
+    tfl = Table(prog, flat)
+    dropped = None
+    n = 0
+    for p in tfl.paths:
+        if not any(c.kind == 'loop' and c.pol for c in p.conds):
+            continue
+        n += 1
+        adds = [e for e in p.events if e.kind == 'call' and method_call(
+            e.node) and method_call(e.node)[1] in ('append', 'extend',
+                                                   'update', '__setitem__')]
+        stores = [e for e in p.events if e.kind == 'store']
+        if not adds and not stores:
+            dropped = p
+    ctx.ob('C19.TARGET', dropped is None and n > 0, ctx.where(
+        flat.module, flat.node), flat.qual,
+        'flatten keeps every entry (%d element paths)' % n,
+        'every key of the target file reaches the flat target, whatever '
+        'its value' if dropped is None and n else
+        'flatten drops an entry on path %s: rules that test that '
+        'attribute decide differently from the library' % (
+            dropped.cond_text()[-200:] if dropped else 'none'))
 
 
 def rules_var(prog, tool):
@@ -117,93 +396,6 @@ def rules_var(prog, tool):
                                                       ast.Name):
             return s.targets[0].id
     raise AnalysisError('the checker does not load a rule set')
-
-
-def check_call(ctx, tool, ev, eval_call):
-    prog = ctx.prog
-    RV = rules_var(prog, tool)
-    if eval_call is None:
-        raise AnalysisError('evaluation call not found')
-    # roles inside the evaluator
-    a = [U(x) for x in eval_call.args]
-    kws = {k.arg: U(k.value) for k in eval_call.keywords}
-    rule_p = U(eval_call.func)
-    prm = ev.params
-    bound = dict(zip(['target', 'creds', 'enforcer', 'current_rule'], a))
-    bound.update(kws)
-    ok = len(set(bound.values())) == len(bound) and all(
-        v in prm for v in bound.values()) and set(bound) == {
-            'target', 'creds', 'enforcer', 'current_rule'}
-    ctx.ob('C19.CALL', ok, ctx.where(ev.module, eval_call), ev.qual,
-           U(eval_call), 'the rule is called as rule(target, credentials, '
-           'enforcer, current_rule=name)' if ok else
-           'the rule is not evaluated with the four protocol arguments')
-    if not ok or ev is tool:
-        return
-    # what tool passes for those parameters
-    calls = [c for c in walk_no_nested(tool.node) if isinstance(c, ast.Call)
-             and prog.callee_of(tool, c) is ev]
-    ctx.floor('C19.CALL', len(calls), 2, 'evaluator calls')
-    # provenance of tool's locals
-    assigns = {}
-    for s in walk_no_nested(tool.node):
-        if isinstance(s, ast.Assign) and len(s.targets) == 1 and isinstance(
-                s.targets[0], ast.Name):
-            assigns.setdefault(s.targets[0].id, []).append(s.value)
-    for c in calls:
-        args = dict(zip(prm, [x for x in c.args]))
-        for k in c.keywords:
-            args[k.arg] = k.value
-        role = {r: args.get(p) for r, p in bound.items()}
-        role['rule'] = args.get(rule_p)
-        probs = []
-        # credentials: derived from the access (token) file
-        cr = role['creds']
-        cr_src = ' '.join(U(v) for v in assigns.get(U(cr), [])) if cr \
-            is not None else ''
-        if "['token']" not in cr_src and 'token' not in cr_src:
-            probs.append('credentials are not the token data (%s)' % U(cr))
-        tg = role['target']
-        tg_src = ' '.join(U(v) for v in assigns.get(U(tg), [])) if tg \
-            is not None else ''
-        if tg is None or U(tg) == U(cr) or not tg_src:
-            probs.append('target is %s' % (U(tg) if tg is not None
-                                           else 'missing'))
-        en = role['enforcer']
-        en_src = assigns.get(U(en), []) if en is not None else []
-        if not any(isinstance(v, ast.Call) and prog.resolve(
-                tool.module, v.func) == SHELL + '.FakeEnforcer'
-                for v in en_src):
-            probs.append('enforcer stand-in is %s' % (U(en) if en
-                                                      is not None else None))
-        nm = role['current_rule']
-        rl = role['rule']
-        # rule = rules[name] or the loop pair (name, rule) of rules.items()
-        pm = parent_map(tool.node)
-        okpair = False
-        if nm is not None and rl is not None:
-            for v in assigns.get(U(rl), []):
-                if isinstance(v, ast.Subscript) and U(v.value) == RV:
-                    src = U(v.slice)
-                    if src == U(nm) or any(U(x) == src for x in assigns.get(
-                            U(nm), [])):
-                        okpair = True
-            anc = pm.get(c)
-            while anc is not None:
-                if isinstance(anc, ast.For) and isinstance(
-                        anc.target, ast.Tuple) and [U(x) for x in
-                                                    anc.target.elts] == [
-                        U(nm), U(rl)] and RV + '.items()' in U(anc.iter):
-                    okpair = True
-                anc = pm.get(anc)
-        if not okpair:
-            probs.append('the evaluated rule is not the one named by the '
-                         'reported policy name')
-        ctx.ob('C19.CALL', not probs, ctx.where(tool.module, c), tool.qual,
-               U(c)[:90],
-               'evaluates the named rule with the target, the token '
-               'credentials and the enforcer stand-in' if not probs else
-               '; '.join(probs))
 
 
 def check_default(ctx, tool):
@@ -225,75 +417,6 @@ def check_default(ctx, tool):
                'the checker loads the rules with default rule %s while the '
                'library\'s option defaults to %r' % (
                    U(dr) if dr is not None else None, want))
-
-
-def check_iter(ctx, tool, ev):
-    prog = ctx.prog
-    t = Table(prog, tool)
-    W = ctx.where(tool.module, tool.node)
-    req = tool.params[2] if len(tool.params) > 2 else 'apply_rule'
-    RV = rules_var(prog, tool)
-    loops = [n for n in walk_no_nested(tool.node) if isinstance(n, ast.For)
-             and RV + '.items()' in U(n.iter)]
-    ok_sorted = ok_colon = False
-    for lp in loops:
-        it = lp.iter
-        if isinstance(it, ast.Call) and U(it.func) == 'sorted' and not any(
-                k.arg in ('reverse', 'key') for k in it.keywords):
-            ok_sorted = True
-        name = U(lp.target.elts[0]) if isinstance(lp.target, ast.Tuple) \
-            else None
-        for n in ast.walk(lp):
-            if isinstance(n, ast.If) and isinstance(
-                    n.test, ast.Compare) and isinstance(
-                        n.test.ops[0], ast.In) and is_const(
-                            n.test.left, ':') and U(
-                                n.test.comparators[0]) == name:
-                if any(isinstance(c, ast.Call) and prog.callee_of(
-                        tool, c) is ev for b in n.body for c in ast.walk(b)):
-                    ok_colon = True
-    ctx.ob('C19.ITER', ok_sorted, W, tool.qual, 'iteration order',
-           'policies are reported in sorted name order' if ok_sorted else
-           'without a requested rule the policies are not reported in '
-           'sorted order')
-    ctx.ob('C19.ITER', ok_colon, W, tool.qual, 'name filter',
-           'only names containing a colon are reported' if ok_colon else
-           'the checker does not restrict its report to policy names '
-           'containing a colon')
-    # with a requested rule: exactly one evaluation, no loop
-    bad = None
-    n_req = 0
-    for p in t.paths:
-        rq = [c for c in p.conds if c.kind == 'test' and U(c.expr) == req]
-        if not rq:
-            continue
-        evals = [e for e in p.events if e.kind == 'call'
-                 and prog.callee_of(tool, e.node) is ev]
-        looped = any(e.kind == 'iter' and '.items()' in U(e.node)
-                     and 'Rules' in U(t.expand(e.node)) for e in p.events)
-        if rq[0].pol:
-            n_req += 1
-            if p.outcome.kind == 'raise':
-                continue
-            denied = any(e.kind == 'call' and verdict_of(e.node) == 'failed'
-                         for e in p.events)
-            if not ((len(evals) == 1 or denied) and not looped):
-                bad = bad or (p, 'a requested rule does not produce exactly '
-                              'one verdict')
-            for e in evals:
-                a0 = e.node.args[0] if e.node.args else None
-                if a0 is None or U(a0) != req:
-                    bad = bad or (p, 'the verdict is reported under a name '
-                                  'other than the requested rule')
-        else:
-            if not looped and p.outcome.kind != 'raise':
-                bad = bad or (p, 'without a requested rule the rule set is '
-                              'not iterated')
-    ctx.ob('C19.ITER', bad is None and n_req > 0, W, tool.qual,
-           'requested rule (%d paths)' % n_req,
-           'only the requested rule is evaluated, once' if bad is None
-           and n_req else (bad[1] if bad else 'no path handles a requested '
-                           'rule'))
 
 
 def check_duck(ctx):
@@ -388,82 +511,6 @@ def check_lookup(ctx, tool):
                nontrivial=False)
 
 
-def check_target(ctx, tool, ev):
-    """The target handed to the rules is exactly what the files say."""
-    prog = ctx.prog
-    t = Table(prog, tool)
-    W = ctx.where(tool.module, tool.node)
-    tf_param = 'target_file' if 'target_file' in tool.params else None
-    flat = prog.functions.get(SHELL + '.flatten')
-    if tf_param is None or flat is None:
-        raise AnalysisError('target_file parameter / flatten helper '
-                            'vanished')
-    tpos = ev.params.index('target') if 'target' in ev.params else 2
-    bad = None
-    n_file = n_default = 0
-    for p in t.paths:
-        given = [c for c in p.conds if c.kind == 'test'
-                 and U(c.expr) == tf_param]
-        for e in p.events:
-            if e.kind != 'call' or prog.callee_of(tool, e.node) is not ev:
-                continue
-            if not given:
-                bad = bad or (p, 'the target does not depend on whether a '
-                              'target file was given')
-                continue
-            a = e.node.args[tpos] if len(e.node.args) > tpos else None
-            ax = t.expand(a) if a is not None else None
-            if given[0].pol:
-                n_file += 1
-                ok = isinstance(ax, ast.Call) and prog.callee_of(
-                    tool, ax) is flat and len(ax.args) == 1 and isinstance(
-                        ax.args[0], ast.Call) and (prog.resolve(
-                            tool.module, ax.args[0].func) or '').endswith(
-                                ('jsonutils.loads', 'json.loads'))
-                if not ok:
-                    bad = bad or (p, 'with a target file the rules are not '
-                                  'evaluated against exactly the flattened '
-                                  'contents of that file (got %s)' % (
-                                      U(ax)[:80] if ax is not None else None))
-            else:
-                n_default += 1
-                ok = isinstance(ax, ast.Dict) and any(
-                    is_const(k, 'user_id') for k in ax.keys)
-                if not ok:
-                    bad = bad or (p, 'without a target file the default '
-                                  'target is not the token\'s own user / '
-                                  'project (got %s)' % (
-                                      U(ax)[:80] if ax is not None else None))
-    ctx.ob('C19.TARGET', bad is None and n_file > 0 and n_default > 0, W,
-           tool.qual, 'target derivation (%d file paths, %d default paths)'
-           % (n_file, n_default),
-           'the target is the flattened target file when one is given, '
-           'else the token\'s own user/project' if bad is None else
-           bad[1] + ' (path: %s)' % bad[0].cond_text()[-200:])
-    # flatten keeps every leaf
-    tfl = Table(prog, flat)
-    dropped = None
-    n = 0
-    for p in tfl.paths:
-        if not any(c.kind == 'loop' and c.pol for c in p.conds):
-            continue
-        n += 1
-        adds = [e for e in p.events if e.kind == 'call' and method_call(
-            e.node) and method_call(e.node)[1] in ('append', 'extend',
-                                                   'update', '__setitem__')]
-        stores = [e for e in p.events if e.kind == 'store']
-        if not adds and not stores:
-            dropped = p
-    ctx.ob('C19.TARGET', dropped is None and n > 0, ctx.where(
-        flat.module, flat.node), flat.qual,
-        'flatten keeps every entry (%d element paths)' % n,
-        'every key of the target file reaches the flat target, whatever '
-        'its value' if dropped is None and n else
-        'flatten drops an entry on path %s: rules that test that '
-        'attribute decide differently from the library' % (
-            dropped.cond_text()[-200:] if dropped else 'none'))
-
-
 def check(ctx):
     prog = ctx.prog
     ctx.use(SHELL, POLICY, CHECKS, PKG + '.opts')
@@ -476,14 +523,10 @@ def check(ctx):
     ctx.assume('agreement on all inputs is differential by nature and not '
                'decided')
     tool = prog.func(SHELL + '.tool')
-    ev = find_evaluator(prog, tool)
-    eval_call = check_polarity(ctx, ev)
-    check_call(ctx, tool, ev, eval_call)
+    check_tool_paths(ctx, tool)
     check_default(ctx, tool)
-    check_iter(ctx, tool, ev)
     check_duck(ctx)
     check_lookup(ctx, tool)
-    check_target(ctx, tool, ev)
     # C19.STATELESS: a verdict depends on the files of this call only
     from ..modstate import state_uses
     region = {q: f for q, f in prog.region(tool).items()
